@@ -14,15 +14,15 @@ from .. import boc_strict as S
 SPEC = dict(
     manifest=dict(
         category='proof',
-        text='Lean proves for ALL inputs: (1) c04_conforms_flat - for every list of well-formed cell records with strictly forward references (any DAG in any valid order), every count < 2^32 / '
-             'payload < 2^63 bytes and each of the 6 valid option sets, the model of Cell.to_boc succeeds and the byte-level layer of an independent strict reader transcribed from boc.tlb '
-             '(header, widths, index, CRC, record framing, completion tags, forward references, no trailing bytes) accepts the bytes and recovers exactly the records and root; '
-             '(2) c04_conforms_partial - the same end to end from a tree of cells through the models of Cell.__init__, Cell.order, Cell.serialize and to_boc (<= 4 refs per cell, exotic cells carry '
-             'their type byte, local no-collision hypothesis on the hashes at hand); (3) order_valid / order_total - the model of Cell.order terminates and yields root first, every distinct sub-cell '
-             'exactly once, references strictly forward; (4) the clause lemmas widths_sufficient(_emit), refs_forward, each_once(_records), index_cumulative (doubled with cache bits), crc_covers_prefix, completion_tag. '
-             'NOT proved (checked on every run by the oracle only): the semantic layer of the strict reader on trees - level bits of d1 = computed level mask, no duplicate cell by representation hash, '
-             'rebuilt DAG identical - i.e. the full strictParse(to_boc t) = [t]. Every run executes the Lean strict reader (incl. semantic layer) AND an independent Python strict reader '
-             'on the bytes the library really emits for generated DAGs x 6 option sets, and compares the decoded DAG with the one the library holds.',
+        text='Lean proves THE PROPERTY for all inputs (c04_conforms): for every spec-valid tree of cells (ordinary, pruned, library, Merkle proof/update; any nesting and sharing; C02 TreeWF) whose exotic '
+             'cells carry their type byte, under a local no-collision hypothesis on the hashes of the cells at hand and within the format\'s own limits (< 2^32 cells, < 2^63 payload bytes), for each of the 6 '
+             'valid option sets: the model of Cell.order returns a valid order (root first, each distinct cell once, references strictly forward), the model of Cell.to_boc succeeds, and an independent strict '
+             'reader transcribed from boc.tlb + the reference node\'s checks (flags, widths, counts, index = cumulative end offsets doubled with cache bits, CRC-32C over the whole prefix, record framing, '
+             'completion tags, forward references, level bits of d1 = computed level mask, no duplicate cell, no trailing bytes) ACCEPTS the bytes and denotes exactly the same tree. '
+             'Also for ALL record lists / ANY valid order: c04_conforms_flat (byte-level layer), and the named clause lemmas widths_sufficient(_emit), refs_forward, each_once(_records), '
+             'index_cumulative, crc_covers_prefix, completion_tag; order_valid / order_total for the model of Cell.order (terminates with the driver\'s fuel). '
+             'Every run additionally executes the Lean strict reader AND an independent Python strict reader on the bytes the LIBRARY really emits for generated DAGs x 6 option sets and compares the decoded '
+             'DAG with the one the library holds; the emitter model is tied to the code byte-for-byte on the same inputs.',
         level_note='Trusted: Lean kernel (propext, Classical.choice, Quot.sound); Spec/Boc.lean as the transcription of boc.tlb + reference-node checks; Model/BocEmit.lean as a hand '
                    'transcription of Cell.order/serialize/to_boc tied to the code only by sampled byte-for-byte correspondence (all generated DAGs x 6 option sets, incl. 255/256/257 cells, '
                    'payload 127..65536 bytes, depth-1023 chains, exotic cells; thorough: 65535/65536/70000 cells); SHA-256 is a parameter in the theorems; the Python harness.',
@@ -31,7 +31,7 @@ SPEC = dict(
     design_ref='DESIGN.md §6 C04',
     rule='DAGs: hand cases, random ordinary DAGs with content duplicates, connected DAGs 2..700 cells, twin sub-DAGs, exotic trees, lattices (maximal sharing), '
          'chains to depth 1023, exactly 127/128/254..257 cells, payload exactly 126..129/254..257/32767/32768/65535/65536 bytes, one 3000-cell DAG '
-         '(thorough: 65535/65536/65537/70000 cells); each x 6 option sets; distinct = distinct (dag, root, option set); non-trivial = more than one cell or non-empty data',
+         '(thorough: 65535/65536/70000 cells); each x 6 option sets; distinct = distinct (dag, root, option set); non-trivial = more than one cell or non-empty data',
     trusted_base=['Spec/Boc.lean transcribes boc.tlb serialized_boc#b5ee9c72 + the reference node\'s checks (independent of the library\'s parser)',
                   'Model/BocEmit.lean mirrors Cell.order / Cell.serialize / Cell.to_boc by hand',
                   'harness/boc_strict.py: the same strict reader in Python (replays do not depend on the driver)',
@@ -130,7 +130,7 @@ def check_case(ctx, batch, tag, nodes, root, big=False, opts=D.OPTS):
                                 and got['roots'] == lst['roots']) else 'flat listing differs from the Python reader'
             if why2:
                 ctx.fail(f'nonconforming-lean:{OPT_NAME[o]}:{_norm(why2)}', f'Lean strict reader on to_boc{o} output: {why2}', finp, why2, 'same DAG')
-        if big and o != (1, 1, 1):
+        if big and (o != (1, 1, 1) or big == 'flat'):
             batch.add('bocflat ' + b.hex(), lambda ans, f=on_strict: f(ans, full=False))
         else:
             batch.add('bocstrict ' + b.hex(), on_strict)
@@ -156,9 +156,13 @@ def run(ctx):
     except Exception:
         pass
     batch = Batch(ctx)
+    import gc
     for tag, nodes, root, big in D.cases(ctx):
         check_case(ctx, batch, tag, nodes, root, big)
         ctx.count('dags')
+        if big:
+            batch.flush()
+            gc.collect()
     batch.flush()
     # rooted at inner nodes of one DAG (root index != last)
     nodes = D.connected_dag(ctx.rng, 40)
